@@ -318,13 +318,23 @@ def run_shard(spec):
         balg = rng.choice(["cube4D", "randomQ"])
         oalg = rng.choice(["ico", "cube3D", "randomS"])
         T = rng.randint(2, 4)
+        many = it == 0 or rng.random() < 0.1
+        if many:
+            # many shells on a small angular grid: anything computed from a position index by float arithmetic (k/n_t*n_t, index/n_points)
+            # goes wrong only for particular shell counts (22, 23, 26, 39, 43-47, 49-52, ... for one such slip), so the count sweeps widely
+            T = rng.randint(5, 70)
+            nb, no = rng.choice([1, 4]), rng.choice([4, 5, 7])
         r = [rng.randint(5, 40) / 100]
         for _ in range(T - 1):
             r.append(round(r[-1] + rng.choice([0.02, 0.05, 0.1, 0.3]), 4))
-        if rng.random() < 0.15:
+        if many and rng.random() < 0.5:
+            r = None      # an equidistant grid through the two- or three-argument linspace form (two arguments: 50 shells)
+        if r is not None and rng.random() < 0.15:
             r = [float("%.6g" % (x * 1e-3)) for x in r]          # picometre shells: tiny borders and distances are still entries
-        t = "[" + ", ".join(str(x) for x in r) + "]"
-        f = rng.choice([0.5, 1, 2, 3.7, 1e-3, 250.0])            # every factor f > 0
+        t = "[" + ", ".join(str(x) for x in r) + "]" if r is not None else \
+            (f"linspace(0.2, {round(0.2 + 0.05 * T, 3)}, {T})" if rng.random() < 0.7 else "linspace(0.2, 1.5)")
+        f = rng.choice([0.5, 1, 2, 3.7, 1e-3, 250.0, 3, 2500000, 3100000000])   # every factor f > 0, Python ints included (f^3 of the last two
+        #                                                                              exceeds the 64-bit integer range)
         cart = rng.random() < 0.4 and no >= 4 and surrounds(oalg, no)
         b, o = (f"{balg}_{nb}" if nb > 1 else "1"), (f"{oalg}_{no}" if no > 1 else "1")
         drive(FullGrid, b, o, t, f, cart, rng.randrange(10 ** 6))
